@@ -262,6 +262,10 @@ def assemble_unit(unit_name, unit_dir, cfg, extracted, prelude_files, canary=Fal
                 return s_
         return None
 
+    def find_all(kind, *args):
+        # several overlay files of a unit may add ghost text at the same point (e.g. a feature-gated overlay)
+        return [s_ for s_ in secs if s_.kind == kind and s_.args[: len(args)] == list(args)]
+
     for item in unit_items(cfg, features):
         name = item["name"]
         ex = extracted[name]
@@ -350,9 +354,9 @@ def assemble_unit(unit_name, unit_dir, cfg, extracted, prelude_files, canary=Fal
                             out.append((prefix + t.strip(), {"k": "clause", "fn": cur_fn, "item": name, "kw": kw, "name": cname, "ofile": os.path.relpath(fs_.path, VERIF), "oline": ln, "first": first}))
                             first = False
                 out.append((indent[:-4] + "{" if len(indent) >= 4 else "{", {"k": "gen"}))
-                hsec = find("at", cur_fn, "fn_head")
-                if hsec:
-                    emit_ghost(out, hsec, indent, cur_fn)
+                for hsec in find_all("at", cur_fn, "fn_head"):
+                    if hsec:
+                        emit_ghost(out, hsec, indent, cur_fn)
                 A.functions[cur_fn] = {"item": name, "file": ex["file"], "span": ex["span"], "rules": ex["rules"],
                                        "sha256": hashlib.sha256(ex["orig"].encode()).hexdigest(), "contract": fsec is not None,
                                        "_start_out": fn_start}
@@ -378,17 +382,17 @@ def assemble_unit(unit_name, unit_dir, cfg, extracted, prelude_files, canary=Fal
                             out.append((prefix + t.strip(), {"k": "clause", "fn": f_, "item": name, "kw": kw, "loop": k, "name": f"loop-{k}.{cname}", "ofile": os.path.relpath(lsec.path, VERIF), "oline": ln, "first": first}))
                             first = False
                 out.append((indent[:-4] + "{", {"k": "gen"}))
-                hsec = find("at", f_, "loop_head", k)
-                if hsec:
-                    emit_ghost(out, hsec, indent, f_)
+                for hsec in find_all("at", f_, "loop_head", k):
+                    if hsec:
+                        emit_ghost(out, hsec, indent, f_)
                 idx += 1
                 continue
             m = re.match(r'^vx_(loop_end|after_loop)!\((\w+), (\w+)\);$', stripped)
             if m:
                 kind, f_, k = m.group(1), m.group(2), m.group(3)
-                hsec = find("at", f_, kind, k)
-                if hsec:
-                    emit_ghost(out, hsec, indent, f_)
+                for hsec in find_all("at", f_, kind, k):
+                    if hsec:
+                        emit_ghost(out, hsec, indent, f_)
                 if canary:
                     canary_n[0] += 1
                     out.append((indent + f"assert(!vx_canary({canary_n[0]})); // CANARY {f_}:{kind}:{k}", {"k": "canary", "fn": f_, "id": f"{f_}:{kind}:{k}"}))
@@ -451,9 +455,9 @@ def assemble_unit(unit_name, unit_dir, cfg, extracted, prelude_files, canary=Fal
             m = re.match(r'^vx_fn_end!\((\w+)\);$', stripped)
             if m:
                 f_ = m.group(1)
-                hsec = find("at", f_, "fn_end")
-                if hsec:
-                    emit_ghost(out, hsec, indent, f_)
+                for hsec in find_all("at", f_, "fn_end"):
+                    if hsec:
+                        emit_ghost(out, hsec, indent, f_)
                 if canary and not A.functions.get(f_, {}).get("contract_only"):
                     canary_n[0] += 1
                     out.append((indent + f"assert(!vx_canary({canary_n[0]})); // CANARY {f_}:fn_end", {"k": "canary", "fn": f_, "id": f"{f_}:fn_end"}))
